@@ -429,6 +429,8 @@ pub fn run_c08(out: &mut Out, _rng: &mut Rng, _tier: Tier) -> String {
     multiply_numeric(out);
     multiply_widening(out);
     reshape_huge_zst(out);
+    // the capacity check of the elementwise family in all four storage-order combinations
+    crate::c12::huge_decisions(out);
     mapping::<()>(out, 0);
     mapping::<u8>(out, 1);
     mapping::<u16>(out, 2);
